@@ -33,6 +33,8 @@ MEMBERS_METHODS = {
     "Trk": [(".pt()", F), (".n()", I), (".good()", B), (".scaled()", F), (".scaled({I})", F), (".scaled(f={F})", F)],
 }
 
+DICT_METHOD_KEYS = ["values", "items", "keys", "get", "copy", "pop", "update"]
+
 NAME_POOLS = {
     "distinct": None,  # fresh names v0, v1, ...
     "same": ["e"],
@@ -46,7 +48,7 @@ class Cfg:
     def __init__(self, naming="distinct", method_form=0.3, members=None, called_lambdas=True, odd_selectors=False,
                  containers=True, ifexp=True, keywords_in_called=True, first=True, lists=True, dict_attr=True,
                  comprehension=False, count_fn=True, first_on_seq=True, genexp=False,
-                 captures=False, helpers=False, record_ctor=False, free_scalar=False, first_of_packages=True, higher_order=False, kwonly_in_called=False):
+                 captures=False, helpers=False, record_ctor=False, free_scalar=False, first_of_packages=True, higher_order=False, kwonly_in_called=False, dict_method_keys=False):
         self.naming = naming
         self.method_form = method_form
         self.members = members or MEMBERS
@@ -68,6 +70,7 @@ class Cfg:
         self.first_of_packages = first_of_packages
         self.higher_order = higher_order
         self.kwonly_in_called = kwonly_in_called
+        self.dict_method_keys = dict_method_keys
         self.free_scalar = free_scalar
 
 
@@ -391,6 +394,10 @@ def any_type(cx: Ctx, env, depth):
         if kind == "R" and cx.chance(3):
             # a dictionary keyed by integers (column number -> value), written in an order that is NOT the positional one
             keys = cx.pick([(1, 0, 2), (0, 1, 2), (2, 5, 0), (7, 1, 3)])[:n]
+            return ("R", tuple((key, any_type(cx, env, depth - 1)) for key in keys))
+        if kind == "R" and cx.cfg.dict_method_keys and cx.chance(3):
+            # field names that are also attributes of python's dict: for func_adl `p.values` is the field
+            keys = cx.draw(st.permutations(DICT_METHOD_KEYS))[:n]
             return ("R", tuple((key, any_type(cx, env, depth - 1)) for key in keys))
         return (kind, tuple((f"f_{chr(97 + i)}", any_type(cx, env, depth - 1)) for i in range(n)))
     if c == 8:
